@@ -185,8 +185,9 @@ def generate(rng, tier):
     return case
 
 def _colnames(n):
-    from dataiter import util
-    return util.generate_colnames(n)
+    """Names of the columns of a header-less file as the library documents them: a, b, ..., z, aa, bb, ... (the monitor's own enumeration)."""
+    import string
+    return [string.ascii_lowercase[i % 26] * (i // 26 + 1) for i in range(n)]
 
 def _magic_ok(res, path, suffix, what):
     if not suffix:
